@@ -324,9 +324,12 @@ impl Prop for C18 {
         });
         for _ in 0..n {
             let op = match rng.below(20) {
-                0..=9 => ROp::Rnd(rng.pick(&["1", "1", "1", "0.5", "100", "0.001", "2.5", "1000000"]).to_string()),
+                0..=9 => ROp::Rnd(
+                    rng.pick(&["1", "1", "1", "0.5", "100", "0.001", "2.5", "1000000", "0.0000000000000000001", ".000000000000000000000000000001", "0.9999999999999999"])
+                        .to_string(),
+                ),
                 10..=12 => ROp::Rnd(rng.pick(&["0", "0.0", "00", "-0"]).to_string()),
-                13..=14 => ROp::Rnd(rng.pick(&["-1", "-0.5", "-100"]).to_string()),
+                13..=14 => ROp::Rnd(rng.pick(&["-1", "-0.5", "-100", "-0.0000000000000000001"]).to_string()),
                 15 => ROp::Seed(seed(rng)),
                 16..=17 => ROp::Prog {
                     draws: 1 + rng.below(8) as u32,
